@@ -7,7 +7,8 @@ Rust modelled (by hand, statement for statement):
 * `src/cli.rs`   `Opt::from_args_and_git_config` — which git config object exists
   (`finalConfig`);
 * `src/git_config/mod.rs` `GitConfig::get` — `enabled`, `GIT_CONFIG_PARAMETERS` layer over the
-  file for keys of the main `[delta]` section (`GitCfg.get`, `GitCfg.getBool`);
+  file for keys of the main `[delta]` section, per getter type (`GitCfg.getT`, `GitCfg.get`,
+  `GitCfg.getBool`; which layer each `impl GitConfigGet` consults first is generated);
 * `src/options/set.rs` `gather_features`, `gather_features_recursively`,
   `gather_builtin_features_from_flags_in_gitconfig`, `gather_builtin_features_recursively`
   (`gatherFeatures`, `gatherR`, `gatherFlags`, `gatherB`) — the deque is a `List` whose head is
@@ -114,38 +115,79 @@ structure GitCfg where
   file : GitFile
   deriving DecidableEq, Repr
 
-/-- `git_config.get::<String>(key)`; `sec = none` is the main section (`delta.<k>`),
-    `sec = some f` is `delta.<f>.<k>`. -/
-def GitCfg.get (g : GitCfg) (sec : Option Name) (k : Name) : Option String :=
-  if g.enabled then
-    match sec with
-    | none =>
-      match lookup k g.params with
-      | some v => some v
-      | none => lookup k g.file.main
-    | some f =>
-      match lookup f g.file.sections with
-      | some s => lookup k s
-      | none => none
-  else none
+/-- The five `impl GitConfigGet for T` of src/git_config/mod.rs. -/
+inductive GType
+  | string | optString | bool | usize | f64
+  deriving DecidableEq, Repr
+
+def GType.ofName (n : String) : GType :=
+  if n = "optString" then .optString else if n = "bool" then .bool
+  else if n = "usize" then .usize else if n = "f64" then .f64 else .string
+
+def GType.name : GType → String
+  | .string => "string" | .optString => "optString" | .bool => "bool" | .usize => "usize" | .f64 => "f64"
+
+/-- Does the getter of this type look at `GIT_CONFIG_PARAMETERS` before the file? (generated
+    from the shape of each impl) -/
+def envFirst (ty : GType) : Bool :=
+  lookup ty.name Generated.Options.getterOrder = some "env-first"
 
 def parseBool (s : String) : Option Bool :=
   if s = "true" then some true else if s = "false" then some false else none
 
-/-- `git_config.get::<bool>(key)`: a `GIT_CONFIG_PARAMETERS` entry counts only when it is
-    literally `true` / `false`; otherwise the file decides. -/
-def GitCfg.getBool (g : GitCfg) (sec : Option Name) (k : Name) : Option Bool :=
+def isDigits (s : String) : Bool := !s.toList.isEmpty && s.toList.all Char.isDigit
+
+/-- `digits[.digits]` — the decimal forms the harness uses for `f64` options. -/
+def isDecimal (s : String) : Bool :=
+  match s.toList.span Char.isDigit with
+  | (a, []) => !a.isEmpty
+  | (a, c :: b) => !a.isEmpty && c = '.' && !b.isEmpty && b.all Char.isDigit
+
+/-- Does the getter of type `ty` take this `GIT_CONFIG_PARAMETERS` text (otherwise it falls
+    through to the file)? `bool`: only `true` / `false`; `usize`, `f64`: only if it parses. -/
+def envAccepts (ty : GType) (v : String) : Bool :=
+  match ty with
+  | .bool => (parseBool v).isSome
+  | .usize => isDigits v
+  | .f64 => isDecimal v
+  | _ => true
+
+/-- Does the file-side getter (`get_string` / `get_bool` / `get_i64`) return this text? Only the
+    boolean case is modelled (`true` / `false`); other values are in the typed domain by
+    assumption. -/
+def fileAccepts (ty : GType) (v : String) : Bool :=
+  match ty with
+  | .bool => (parseBool v).isSome
+  | _ => true
+
+/-- `git_config.get::<T>(key)` as text; `sec = none` is the main section (`delta.<k>`): two
+    layers, `GIT_CONFIG_PARAMETERS` and the file, consulted in the order of the impl for `T`;
+    `sec = some f` is `delta.<f>.<k>` (file only: the parameter regex admits no subsection). -/
+def GitCfg.getT (g : GitCfg) (ty : GType) (sec : Option Name) (k : Name) : Option String :=
   if g.enabled then
     match sec with
     | none =>
-      match (lookup k g.params).bind parseBool with
-      | some b => some b
-      | none => (lookup k g.file.main).bind parseBool
-    | some f =>
-      match lookup f g.file.sections with
-      | some s => (lookup k s).bind parseBool
+      let e := (lookup k g.params).filter (envAccepts ty)
+      let f := (lookup k g.file.main).filter (fileAccepts ty)
+      if envFirst ty then e.or f else f.or e
+    | some s =>
+      match lookup s g.file.sections with
+      | some sct => (lookup k sct).filter (fileAccepts ty)
       | none => none
   else none
+
+/-- `git_config.get::<String>(key)`. -/
+def GitCfg.get (g : GitCfg) (sec : Option Name) (k : Name) : Option String := g.getT .string sec k
+
+/-- `git_config.get::<bool>(key)`. -/
+def GitCfg.getBool (g : GitCfg) (sec : Option Name) (k : Name) : Option Bool :=
+  (g.getT .bool sec k).bind parseBool
+
+/-- The getter type of an option of the `set_options!` list (generated from cli.rs). -/
+def optionType (o : Name) : GType :=
+  match lookup o Generated.Options.optionTypes with
+  | some n => GType.ofName n
+  | none => .string
 
 /-- A key outside the delta sections (used by builtin features: `color.diff.*`). -/
 def GitCfg.getOther (g : GitCfg) (k : String) : Option String :=
@@ -310,10 +352,10 @@ inductive Val
   | dflt                -- nothing set it: clap's default
   deriving DecidableEq, Repr
 
-/-- `if let Some(git_config) = git_config { git_config.get(key) }`. -/
+/-- `if let Some(git_config) = git_config { git_config.get::<T>(key) }`, `T` the option's type. -/
 def optGet (git : Option GitCfg) (sec : Option Name) (k : Name) : Option String :=
   match git with
-  | some g => g.get sec k
+  | some g => g.getT (optionType k) sec k
   | none => none
 
 /-- The value function of a `builtin_feature!` entry. -/
